@@ -8,6 +8,7 @@ mod conc;
 mod httpd;
 mod net;
 mod cost;
+mod examples;
 mod ops;
 mod payload;
 mod ready;
@@ -111,6 +112,7 @@ fn main() {
         "ready" => ready::run(&args),
         "net" => net::run(&args),
         "util" => util::run(&args),
+        "examples" => examples::run(&args),
         "cost" => cost::run(&args),
         "cost-child" => cost::cost_child(&args),
         "bomb-child" => total::bomb_child(&args),
